@@ -125,6 +125,16 @@ def entry_push [BEq κ] (m : List (κ × List ν)) (k : κ) (v : ν) : List (κ 
   if m.any (fun p => p.1 == k) then m.map (fun p => if p.1 == k then (p.1, p.2 ++ [v]) else p) else m ++ [(k, [v])]
 /-- `Xxh3::new()`: a streaming hasher is the list of the bytes fed so far (`update` appends, `digest` is an operation of `Ext`) -/
 def xxh3_new : List Nat := []
+/-- `a.div_ceil(b)` -/
+def div_ceil (a b : Nat) : Nat := (a + b - 1) / b
+/-- `BufReader::with_capacity(n, file)`: buffering is not observable; the reader IS the handle -/
+def bufreader_with_capacity (_n : Nat) (h : Nat) : Nat := h
+/-- `File::options()` / `OpenOptions`: only `.write(true)` is used by the translated code (no create, no truncate) -/
+structure OpenOptions where
+  write : Bool
+  deriving DecidableEq, Repr, Inhabited
+def oo_new : OpenOptions := ⟨false⟩
+def oo_write (o : OpenOptions) (b : Bool) : OpenOptions := { o with write := b }
 /-- `std::io::SeekFrom` -/
 inductive SeekFrom where
   | Start (n : Nat) | End (n : Int) | Current (n : Int)
